@@ -100,5 +100,6 @@ def catalogue():
         ("a prefix re-bound two levels below the element that declares it",
          lambda: mkc("a", None, [mkc("b", None, [mkc("c", "x", nsmap=dict(ns, eml="urn:other"))], nsmap=ns)], nsmap=ns, share_nsmap=True)),
         ("a qualified attribute kept in Clark notation", lambda: mkc("a", None, (), None, None, ns, None, {"{http://www.w3.org/2001/XMLSchema-instance}nil": "true"})),
+        ("attribute values that are not strings", lambda: mkc("title", "t", (), {"count": 3, "flag": True, "ratio": 0.5, "nothing": None})),
         ("same-named siblings in order", lambda: mkc("keywordSet", None, [mkc("keyword", "k1"), mkc("keyword", "k2"), mkc("keyword", "k3"), mkc("keywordThesaurus", "t")])),
     ]
